@@ -29,7 +29,7 @@ fn k_sqpk_add_data_prefix() {
     kani::cover!(true, "reachable");
 }
 
-//@unit props=C03 label=S tier=thorough fn=patch::SqpkAddData(derive read) bound="command with block count 1: 23-byte prefix plus 128 payload bytes, ids/offset/delete count and payload symbolic" stubs=fmt::format
+//@unit props=C03 label=S tier=parked fn=patch::SqpkAddData(derive read) bound="command with block count 1: 23-byte prefix plus 128 payload bytes, ids/offset/delete count and payload symbolic" stubs=fmt::format
 //@desc the payload is the 128 x block-count bytes that follow the prefix, in order
 #[kani::proof]
 #[kani::unwind(130)]
@@ -119,7 +119,7 @@ fn k_patch_chunk_eof() {
     kani::cover!(true, "reachable");
 }
 
-//@unit props=C03 label=S tier=thorough fn=patch::SqpkChunk(derive read) bound="SQPK chunk body with operation 'D' or 'E' and a symbolic 23-byte command" stubs=fmt::format
+//@unit props=C03 label=S tier=parked fn=patch::SqpkChunk(derive read) bound="SQPK chunk body with operation 'D' or 'E' and a symbolic 23-byte command" stubs=fmt::format
 //@desc operation byte 'D' selects delete, 'E' selects expand; both carry the same 23-byte command layout
 #[kani::proof]
 #[kani::unwind(6)]
@@ -181,21 +181,21 @@ fn file_operation_contract(letter: u8, want: SqpkFileOperation) {
     kani::cover!(true, "reachable");
 }
 
-//@unit props=C03 label=S tier=thorough fn=patch::SqpkFileOperationData(derive read) bound="file-operation command with operation letter A, symbolic offset, size and expansion id, and the 2-byte path 'a' + NUL" stubs=fmt::format
+//@unit props=C03 label=S tier=parked fn=patch::SqpkFileOperationData(derive read) bound="file-operation command with operation letter A, symbolic offset, size and expansion id, and the 2-byte path 'a' + NUL" stubs=fmt::format
 //@desc letter A = add file; offset and file size are the big-endian 64-bit words at 3 and 11; path length the big-endian word at 19; expansion id the big-endian word at 23; the path follows at 27
 #[kani::proof]
 #[kani::unwind(6)]
 #[kani::stub(alloc::fmt::format, stub_fmt)]
 fn k_sqpk_file_operation_add() { file_operation_contract(b'A', SqpkFileOperation::AddFile); }
 
-//@unit props=C03 label=S tier=thorough fn=patch::SqpkFileOperationData(derive read) bound="same command with operation letter D" stubs=fmt::format
+//@unit props=C03 label=S tier=parked fn=patch::SqpkFileOperationData(derive read) bound="same command with operation letter D" stubs=fmt::format
 //@desc letter D = delete file
 #[kani::proof]
 #[kani::unwind(6)]
 #[kani::stub(alloc::fmt::format, stub_fmt)]
 fn k_sqpk_file_operation_delete() { file_operation_contract(b'D', SqpkFileOperation::DeleteFile); }
 
-//@unit props=C03 label=S tier=thorough fn=patch::{SqpkIndex,SqpkPatchInfo}(derive read) bound="index command (27 bytes, letter A) and patch-info command (11 bytes), other bytes symbolic" stubs=fmt::format
+//@unit props=C03 label=S tier=quick fn=patch::{SqpkIndex,SqpkPatchInfo}(derive read) bound="index command (27 bytes, letter A) and patch-info command (11 bytes), other bytes symbolic" stubs=fmt::format
 //@desc index command: letter selects add/delete, synonym flag = byte 1 equals 1, 64-bit hash big-endian at 3, block offset and count big-endian at 11 and 15; patch info: status, version, install size big-endian at 3
 #[kani::proof]
 #[kani::unwind(6)]
@@ -222,7 +222,7 @@ fn k_sqpk_index_and_info() {
     kani::cover!(true, "reachable");
 }
 
-//@unit props=C03 label=S tier=thorough fn=patch::SqpkHeaderUpdateData(derive read) bound="header-update command: kind letters D/I and V/I/D, symbolic ids, 1024 symbolic header bytes" stubs=fmt::format
+//@unit props=C03 label=S tier=parked fn=patch::SqpkHeaderUpdateData(derive read) bound="header-update command: kind letters D/I and V/I/D, symbolic ids, 1024 symbolic header bytes" stubs=fmt::format
 //@desc file kind and header kind are selected by their letters; ids big-endian at 3, 5, 7; the 1024 bytes that follow are the header data, in order
 #[kani::proof]
 #[kani::unwind(1030)]
